@@ -13,7 +13,8 @@ Faults are not bounded by a global index k: a fault is a *choice at the operatio
 "the size validation of this draw fails" = the terminal is too small while it runs), with a budget of 1
 (quick) / 2 (thorough) faults per history.  Since the search runs to the fixpoint, every global position
 k of the fault in every history is covered.  X in {RenderError, StopIteration, AttributeError,
-KeyboardInterrupt}.
+KeyboardInterrupt} (thorough: + ValueError, SystemExit).  Configurations: definite 2 / 3 / 4 frames,
+INDEFINITE streams of 2 / 3 / 4 frames, a non-animated renderable, stdout a tty or not.
 
 Oracle (per data object; the harness renderable keeps a strong reference to every RenderData it ever
 created, so `__del__` can never stand in for a missing explicit finalization):
